@@ -30,6 +30,7 @@ Proof.
   cbn [Codec.encode map fst snd].
   unfold Codec.struct_encode, CodecPrim.pub_encode, Codec.struct_encode_inner.
   cbn [CodecPrim.py_iter bind Codec.struct_encode_seq Codec.as_member].
+  cbn [List.length Nat.ltb Nat.leb]. unfold Codec.as_member.
   change (Codec.int_encode false 2 (CodecPrim.VInt 1)) with (Ok [1; 0]).
   change (Codec.int_encode false 2 (CodecPrim.VInt 6)) with (Ok [6; 0]).
   rewrite int_encode_u64 by exact H. cbn [bind app wrap_all]. rewrite app_nil_r. reflexivity.
